@@ -196,7 +196,13 @@ func (c *Cluster) handleScan(req *Request) *Reply {
 			return &Reply{Exc: e}
 		}
 		c.nextScan++
-		st = &scannerState{id: c.nextScan, server: req.Server, regionName: reg.Name, table: reg.Table}
+		id := c.nextScan
+		if c.ZeroScannerID && reg.Table != "hbase:meta" {
+			c.ZeroScannerID = false
+			c.nextScan--
+			id = 0
+		}
+		st = &scannerState{id: id, server: req.Server, regionName: reg.Name, table: reg.Table}
 		for _, a := range s.Scan.Attribute {
 			if a.GetName() == "opid" {
 				st.opID = string(a.Value)
